@@ -143,8 +143,11 @@ struct tight_copy {
 template <class CharT>
 struct padded_copy {
     std::unique_ptr<CharT[]> p; std::size_t n;
-    padded_copy(const CharT* s, std::size_t len) : p(new CharT[len + 8]), n(len) {
+    // mode 'x': the follower is picked from the list by a hash of the content; mode 'y': the follower repeats the last
+    // unit of the content ("::" after ":", a second hex digit after "%4", ".." after ".")
+    padded_copy(const CharT* s, std::size_t len, char mode = 'x') : p(new CharT[len + 8]), n(len) {
         std::copy(s, s + len, p.get());
+        if (mode == 'y' && len > 0) { for (std::size_t i = 0; i < 8; ++i) p[len + i] = s[len - 1]; return; }
         static const unsigned tr[] = { '4', 'A', 'x', ':', '.', '/', '%', '=', 0x80, 0xA9, 0xBF, '0', 'f', '|', '\\', '?', '#', '@', 0xDC00, 'X', '1', ']' };
         std::size_t h = len * 7u;
         for (std::size_t i = 0; i < len; ++i) h = h * 131u + static_cast<std::size_t>(static_cast<unsigned>(s[i]) & 0xFFFFu);
@@ -157,7 +160,7 @@ struct padded_copy {
 #define WITH_FORMS(STR, CT, S, CALL) \
     switch (k_.form) { \
     case 'v': { const tight_copy<CT> tc_((STR).data(), (STR).length()); const view_like<CT> S{ tc_.p.get(), tc_.n }; ArmGuard ag_; CALL; } break; \
-    case 'x': { const padded_copy<CT> pc_((STR).data(), (STR).length()); const view_like<CT> S{ pc_.p.get(), pc_.n }; ArmGuard ag_; CALL; } break; \
+    case 'x': case 'y': { const padded_copy<CT> pc_((STR).data(), (STR).length(), k_.form); const view_like<CT> S{ pc_.p.get(), pc_.n }; ArmGuard ag_; CALL; } break; \
     case 'z': { const CT* S = (STR).c_str(); ArmGuard ag_; CALL; } break; \
     default:  { const auto& S = (STR); ArmGuard ag_; CALL; } break; \
     }
@@ -177,14 +180,14 @@ struct padded_copy {
 // two string arguments in the same encoding (forms: both as std::basic_string / view)
 #define WITH_STR2(T1, T2, S1, S2, CALL) do { const Tok& a_ = (T1); const Tok& b_ = (T2); \
     switch (a_.enc) { \
-    case 'h': if (a_.form == 'x') { const padded_copy<char16_t> t1_(a_.s16.data(), a_.s16.size()), t2_(b_.s16.data(), b_.s16.size()); const view_like<char16_t> S1{t1_.p.get(), t1_.n}; const view_like<char16_t> S2{t2_.p.get(), t2_.n}; ArmGuard ag_; CALL; } \
+    case 'h': if (a_.form == 'x' || a_.form == 'y') { const padded_copy<char16_t> t1_(a_.s16.data(), a_.s16.size(), a_.form), t2_(b_.s16.data(), b_.s16.size(), a_.form); const view_like<char16_t> S1{t1_.p.get(), t1_.n}; const view_like<char16_t> S2{t2_.p.get(), t2_.n}; ArmGuard ag_; CALL; } \
               else if (a_.form == 'v') { const tight_copy<char16_t> t1_(a_.s16.data(), a_.s16.size()), t2_(b_.s16.data(), b_.s16.size()); const view_like<char16_t> S1{t1_.p.get(), t1_.n}; const view_like<char16_t> S2{t2_.p.get(), t2_.n}; ArmGuard ag_; CALL; } \
               else { const auto& S1 = a_.s16; const auto& S2 = b_.s16; ArmGuard ag_; CALL; } break; \
-    case 'w': if (a_.form == 'x') { const padded_copy<char32_t> t1_(a_.s32.data(), a_.s32.size()), t2_(b_.s32.data(), b_.s32.size()); const view_like<char32_t> S1{t1_.p.get(), t1_.n}; const view_like<char32_t> S2{t2_.p.get(), t2_.n}; ArmGuard ag_; CALL; } \
+    case 'w': if (a_.form == 'x' || a_.form == 'y') { const padded_copy<char32_t> t1_(a_.s32.data(), a_.s32.size(), a_.form), t2_(b_.s32.data(), b_.s32.size(), a_.form); const view_like<char32_t> S1{t1_.p.get(), t1_.n}; const view_like<char32_t> S2{t2_.p.get(), t2_.n}; ArmGuard ag_; CALL; } \
               else if (a_.form == 'v') { const tight_copy<char32_t> t1_(a_.s32.data(), a_.s32.size()), t2_(b_.s32.data(), b_.s32.size()); const view_like<char32_t> S1{t1_.p.get(), t1_.n}; const view_like<char32_t> S2{t2_.p.get(), t2_.n}; ArmGuard ag_; CALL; } \
               else { const auto& S1 = a_.s32; const auto& S2 = b_.s32; ArmGuard ag_; CALL; } break; \
     case 'W': { const auto& S1 = a_.sw; const auto& S2 = b_.sw; ArmGuard ag_; CALL; } break; \
-    default:  if (a_.form == 'x') { const padded_copy<char> t1_(a_.s8.data(), a_.s8.size()), t2_(b_.s8.data(), b_.s8.size()); const view_like<char> S1{t1_.p.get(), t1_.n}; const view_like<char> S2{t2_.p.get(), t2_.n}; ArmGuard ag_; CALL; } \
+    default:  if (a_.form == 'x' || a_.form == 'y') { const padded_copy<char> t1_(a_.s8.data(), a_.s8.size(), a_.form), t2_(b_.s8.data(), b_.s8.size(), a_.form); const view_like<char> S1{t1_.p.get(), t1_.n}; const view_like<char> S2{t2_.p.get(), t2_.n}; ArmGuard ag_; CALL; } \
               else if (a_.form == 'v') { const tight_copy<char> t1_(a_.s8.data(), a_.s8.size()), t2_(b_.s8.data(), b_.s8.size()); const view_like<char> S1{t1_.p.get(), t1_.n}; const view_like<char> S2{t2_.p.get(), t2_.n}; ArmGuard ag_; CALL; } \
               else if (a_.form == 'z' && !a_.has_nul && !b_.has_nul) { const char* S1 = a_.s8.c_str(); const char* S2 = b_.s8.c_str(); ArmGuard ag_; CALL; } \
               else { const auto& S1 = a_.s8; const auto& S2 = b_.s8; ArmGuard ag_; CALL; } break; \
@@ -194,7 +197,7 @@ struct padded_copy {
 // front of a larger buffer with an adversarial follower
 template <class CharT, class F>
 static void with_range(const Tok& t, const CharT* s, std::size_t n, F f) {
-    if (t.form == 'x') { const padded_copy<CharT> pc(s, n); f(pc.p.get(), pc.p.get() + pc.n); }
+    if (t.form == 'x' || t.form == 'y') { const padded_copy<CharT> pc(s, n, t.form); f(pc.p.get(), pc.p.get() + pc.n); }
     else { const tight_copy<CharT> tc(s, n); f(tc.p.get(), tc.p.get() + tc.n); }
 }
 #define WITH_RANGE(T, F, L, CALL) switch ((T).enc) { \
